@@ -47,6 +47,12 @@ Proof.
   - change (spec_step phl sw (CChmod vi0 p mode))
       with ({| sw_fs := fst (k_chmod (sw_fs sw) (sw_sv sw) p mode); sw_sv := sw_sv sw |}, snd (k_chmod (sw_fs sw) (sw_sv sw) p mode)).
     cbn [fst sw_fs sw_sv]. split; [apply links_ok_k_chmod; assumption|reflexivity].
+  - change (spec_step phl sw (CChown vi0 p uid gid))
+      with ({| sw_fs := fst (k_chown true (sw_fs sw) (sw_sv sw) p uid gid); sw_sv := sw_sv sw |}, snd (k_chown true (sw_fs sw) (sw_sv sw) p uid gid)).
+    cbn [fst sw_fs sw_sv]. split; [apply links_ok_k_chown; assumption|reflexivity].
+  - change (spec_step phl sw (CLchown vi0 p uid gid))
+      with ({| sw_fs := fst (k_chown false (sw_fs sw) (sw_sv sw) p uid gid); sw_sv := sw_sv sw |}, snd (k_chown false (sw_fs sw) (sw_sv sw) p uid gid)).
+    cbn [fst sw_fs sw_sv]. split; [apply links_ok_k_chown; assumption|reflexivity].
   - split; [assumption|reflexivity].
   - split; [assumption|reflexivity].
   - split; [assumption|reflexivity].
